@@ -104,6 +104,10 @@ def gen(seed):
     big = version >= 4 and rng.random() < 0.08
     dev = wgen.gen_device(rng, n_log=rng.choice([254, 255, 256, 257, 300, 520]) if big else rng.choice([1, 3, 8, 20, 40]),
                           n_param=1, version=version, mems=[])
+    if big and knobs.get('pct'):
+        for k_ in ('pct', 'pct_horizon'):
+            knobs.pop(k_, None)
+        knobs['line_mean'] = 40
     ncfg = rng.choice([1, 2, 3, 6])
     cfgs = [gen_cfg(rng, dev, ci, high=big) for ci in range(ncfg)]
     ops = []
@@ -375,7 +379,9 @@ def do_add(ctx, cf, dev, c, devlog, st):
     except Exception as e:
         exc = e
     P.sim_sleep(0.02)
-    sent = [r for r in dev.rx[n0:] if r[2] == 5 and r[3] == 1 and r[4][:1] in (b'\x00', b'\x01', b'\x06', b'\x07', b'\x03')]
+    # (create / append messages: a START seen in this window can be the retransmission of an earlier block's START whose
+    # acknowledgement was lost)
+    sent = [r for r in dev.rx[n0:] if r[2] == 5 and r[3] == 1 and r[4][:1] in (b'\x00', b'\x01', b'\x06', b'\x07')]
     if exc is not None:
         if exp is True:
             ctx.violation('1', 'valid-config-rejected %s' % type(exc).__name__,
